@@ -301,11 +301,20 @@ func vpApplyRef(ref *vpRef, r *vpOpResult) bool {
 func VerifH_C16_concurrent() {
 	nkeys := vpParam("keys", 2)
 	T := vpParam("threads", 2)
-	capacity := uint64(vpRange("capacity", 1, vpParam("maxcap", 3)))
+	capacity := uint64(vpRange("capacity", vpParam("mincap", 1), vpParam("maxcap", 3)))
 	vpSizes = &vpSizeCtl{}
-	c := NewCache[int, *vpVal](capacity)
+	var c *Cache[int, *vpVal]
+	callbacks := 0
+	if vpParam("callbacks", 0) == 1 {
+		// a cache with a delete callback (user code that runs inside Put /
+		// LoadAndDelete when an entry leaves the cache)
+		c = NewCache[int, *vpVal](capacity, WithDeleteCallback(func(k int, v *vpVal) { callbacks++ }))
+		vpReach("cache-with-delete-callback")
+	} else {
+		c = NewCache[int, *vpVal](capacity)
+	}
 	ref0 := &vpRef{capacity: capacity}
-	pre := vpRange("prefill", 0, 1)
+	pre := vpRange("prefill", 0, vpParam("maxprefill", 1))
 	id := 100
 	for j := 0; j < pre; j++ {
 		v := &vpVal{id: id, size: 1}
